@@ -555,7 +555,34 @@ pub fn container_shards(tier: Tier) -> Vec<Shard> {
     out.push(Box::new(ver_variants));
     out.push(Box::new(member_name_values));
     out.push(Box::new(unit_named_keys));
+    out.push(Box::new(order_variants));
     out
+}
+
+/// Order and repetition: grids whose columns are not in name order, the same row / element /
+/// value twice, a Ref and a Str with the same text side by side, two Numbers with the same unit,
+/// rows whose cells are given in another order than the columns.
+pub fn order_variants(sink: &mut dyn FnMut(V)) {
+    let vals = [V::num(1.0), V::numu(1.0, "kW"), V::str("r"), V::Ref("r".into(), None), V::Ref("r".into(), Some("r".into())), V::Sym("r".into()), V::Uri("r".into()), V::Marker, V::dt(1_625_097_600, 0, "America/New_York")];
+    for a in &vals {
+        for b in &vals {
+            sink(V::List(vec![a.clone(), b.clone(), a.clone()]));
+            sink(V::dict(&[("a", a.clone()), ("b", b.clone()), ("c", a.clone())]));
+            for cols in [["b", "a", "c"], ["c", "b", "a"], ["zZ_9", "a", "B"]] {
+                let valid = cols.iter().all(|c| c.chars().next().unwrap().is_ascii_lowercase());
+                if !valid {
+                    continue;
+                }
+                let row = mk_tags(&[(cols[0], a.clone()), (cols[2], b.clone())]);
+                sink(V::Grid(Box::new(G {
+                    ver: "3.0".into(),
+                    meta: Some(mk_tags(&[("m", a.clone()), ("n", b.clone())])),
+                    cols: cols.iter().map(|c| Col { name: c.to_string(), meta: if *c == "a" { Some(mk_tags(&[("k", b.clone())])) } else { None } }).collect(),
+                    rows: vec![row.clone(), mk_tags(&[(cols[1], b.clone())]), row],
+                })));
+            }
+        }
+    }
 }
 
 /// Grids whose `ver` is not the default, with every grid-meta variant (absent, empty, one tag,
@@ -685,6 +712,22 @@ pub fn size_witnesses(tier: Tier) -> Vec<V> {
             rows,
         })));
     }
+    // many sibling containers at the same depth (a depth counter that leaks per container shows here)
+    for &n in &widths {
+        if n > 1000 {
+            continue;
+        }
+        let g = |i: usize| V::Grid(Box::new(G { ver: "3.0".into(), meta: None, cols: vec![Col { name: "v".into(), meta: None }], rows: vec![mk_tags(&[("v", V::num(i as f64))])] }));
+        v.push(V::List((0..n).map(g).collect()));
+        v.push(V::List((0..n).map(|i| V::List(vec![V::num(i as f64)])).collect()));
+        v.push(V::List((0..n).map(|i| V::dict(&[("k", V::num(i as f64))])).collect()));
+        v.push(V::Grid(Box::new(G {
+            ver: "3.0".into(),
+            meta: None,
+            cols: vec![Col { name: "id".into(), meta: None }, Col { name: "his".into(), meta: None }],
+            rows: (0..n).map(|i| mk_tags(&[("id", V::Ref(format!("p{i}"), None)), ("his", g(i))])).collect(),
+        })));
+    }
     // deep nesting below the decoders' limit (128): list / dict / grid chains and mixed
     for &d in &[8usize, 16, 32, 40, 60, 100, 120, 126, 127] {
         for pat in [b"l".as_slice(), b"d", b"g", b"ldg", b"gl"] {
@@ -745,6 +788,11 @@ pub fn member_name_values(sink: &mut dyn FnMut(V)) {
         V::Dict(vec![]),
         V::dict(&[("ver", V::str("3.0"))]),
         V::Marker,
+        // strings that mean something to the member of that name
+        V::str("kW"),
+        V::str("New_York"),
+        V::str("number"),
+        V::str("2.0"),
     ];
     let n = MEMBER_NAMES.len();
     for i in 0..n {
@@ -758,7 +806,7 @@ pub fn member_name_values(sink: &mut dyn FnMut(V)) {
                 // `ver` is the one reserved grid-meta name: both formats carry the grid version there
                 meta: if MEMBER_NAMES[i] == "ver" { None } else { Some(mk_tags(&[(MEMBER_NAMES[i], a.clone())])) },
                 cols: vec![Col { name: MEMBER_NAMES[i].to_string(), meta: Some(mk_tags(&[(MEMBER_NAMES[i], a.clone())])) }, Col { name: "zz".into(), meta: None }],
-                rows: vec![mk_tags(&[(MEMBER_NAMES[i], a.clone())]), mk_tags(&[("zz", d.clone())])],
+                rows: vec![mk_tags(&[(MEMBER_NAMES[i], a.clone())]), mk_tags(&[("zz", d.clone())]), mk_tags(&[(MEMBER_NAMES[i], V::num(3.0)), ("zz", V::num(4.0))])],
             })));
             for j in (i + 1)..n {
                 for b in &vals {
